@@ -20,7 +20,7 @@ RULE = (
     "exception; (iv) margin from Contest.tally + find_margin_from_tally equals 2*mean-1 over the same cards, and so does the "
     "margin from a tally handed to find_margin_from_tally while the contest's own tally is absent or stale.  A second "
     "sweep replaces the canonical True/False by truthy (True,1,5,'marked',NaN,numpy 1/True,'0',-1,0.5) and falsy (False,0,'',None,0.0,numpy 0/False) "
-    "encodings (each truthy value with False, each falsy value with True, and a diagonal of other pairs).  Non-trivial = profile with a tie, an overvote or an exact-threshold super-majority; distinct = distinct "
+    "encodings (each truthy value with False, each falsy value with True, and a diagonal of other pairs).  Plus profiles of 1,500 / 12,000 (thorough: 70,000) ballots for 3 candidates whose front-runners are 3 votes apart, tied, or 2 apart the other way.  Non-trivial = profile with a tie, an overvote or an exact-threshold super-majority; distinct = distinct "
     "(m, profile) with such a feature"
 )
 ASSUMPTIONS = [
@@ -29,7 +29,7 @@ ASSUMPTIONS = [
     "tally-based margins with enforce_rules=True are only compared on profiles without overvotes for plurality/approval (the plurality assorter does not judge validity)",
     "profiles with no card under the style filter are outside the quantifier (mean of nothing)",
 ]
-REQUIRE_VAC = ["profiles_with_tie", "profiles_with_overvote", "exact_threshold_supermajority", "ballots_lacking_contest", "encoding_sweep_cases"]
+REQUIRE_VAC = ["profiles_of_thousands_of_ballots", "profiles_with_tie", "profiles_with_overvote", "exact_threshold_supermajority", "ballots_lacking_contest", "encoding_sweep_cases"]
 PLAN = {"quick": [(2, 5), (3, 3)], "thorough": [(2, 8), (3, 5), (4, 3)]}
 ENC_PLAN = {"quick": [(2, 2), (3, 2)], "thorough": [(2, 3), (3, 2), (4, 1)]}
 SHARES = [1 / 3, 1 / 2, 2 / 3, 3 / 4]
@@ -313,7 +313,32 @@ def show(m, prof):
     return ["<no contest>" if al[a] is None else {NAMES[c]: ("-", "falsy", "MARK")[s] for c, s in enumerate(al[a])} for a in prof]
 
 
+def big_profile(m, n, variant):
+    """n ballots of a few kinds for m = 3 candidates: two front-runners a handful of votes apart (variant 0: A ahead,
+    1: exact tie, 2: B ahead), a third candidate, overvotes, blanks, falsy marks and cards without the contest"""
+    al = alphabet(m)
+    ix = {b: i for i, b in enumerate(al)}
+    k = n // 100
+    a = 40 * k + (3 if variant == 0 else 0)
+    b = 40 * k + (2 if variant == 2 else 0)
+    prof = [ix[(2, 0, 0)]] * a + [ix[(0, 2, 0)]] * b + [ix[(0, 0, 2)]] * (10 * k) + [ix[(2, 2, 0)]] * (3 * k) + [ix[(0, 0, 0)]] * (2 * k) + [ix[(1, 2, 1)]] * k
+    prof += [ix[None]] * (n - len(prof))
+    return tuple(sorted(prof))
+
+
 def run_shard(sh, rec):
+    if sh[0] == "bigprof":
+        _, m, n, variant = sh
+        prof = big_profile(m, n, variant)
+        rec.state()
+        rec.trans()
+        rec.evals()
+        rec.trace()
+        rec.vac("profiles_of_thousands_of_ballots")
+        v, feats = judge(m, prof)
+        for key, what in v:
+            rec.violate(key.replace("C02|", "C02|big|", 1), what[:300] + f" [{n} ballots]", {"bigprof": [m, n, variant]})
+        return
     if sh[0] == "bigtally":
         for cards, V, W, share in big_tally_cases():
             rec.state()
@@ -391,12 +416,18 @@ def explore(tier, seed):
         for B in range(1, maxB + 1):
             for first in range(len(alphabet(m))):
                 sh.append(("enc", m, B, first))
+    for n in ((1500, 12000) if tier == "quick" else (1500, 12000, 70000)):
+        for variant in (0, 1, 2):
+            sh.append(("bigprof", 3, n, variant))
     rec = core.pmap(run_shard, sh, seed, progress="C02")
     rec.state()  # the empty profile (root of the lattice; nothing to judge)
     return rec
 
 
 def run_case(case):
+    if "bigprof" in case:
+        m, n, variant = case["bigprof"]
+        return [(k.replace("C02|", "C02|big|", 1), w) for k, w in judge(m, big_profile(m, n, variant))[0]]
     if "bigtally" in case:
         return judge_big_tally(*case["bigtally"])
     enc = tuple(case.get("enc", [True, False]))
